@@ -60,6 +60,13 @@ def c12_1(ctx):
         mod, fn = rl.get(ctx, spec)
         r = _branch_order(fn)
         if not r:
+            # a branch hash of a concatenation that is not controlled by a comparison of the two halves is an unordered pair
+            calls = [c for c in ast.walk(fn) if isinstance(c, ast.Call) and call_name(c) == "hash_tapbranch" and c.args and isinstance(c.args[0], ast.BinOp) and isinstance(c.args[0].op, ast.Add)]
+            cmps = [c for c in ast.walk(fn) if isinstance(c, ast.Compare) and isinstance(c.ops[0], (ast.Lt, ast.LtE, ast.Gt, ast.GtE))]
+            if calls and not cmps:
+                got[spec] = "unordered"
+                out.append(ctx.bad(spec, "`%s` hashes the pair in a fixed order without comparing the two hashes; BIP341 hashes the lexicographically smaller one first" % ast.unparse(calls[0]), calls[0], mod, key="order"))
+                continue
             raise AnalysisError("%s: ordered pair hashing idiom not found" % spec)
         n, order = r[0]
         got[spec] = order
